@@ -362,6 +362,10 @@ func parseIndex(data []byte) ([]IndexEntry, error) {
 	if err := binary.Read(reader, binary.BigEndian, &reserved); err != nil {
 		return nil, err
 	}
+	// Each entry is 12 bytes (int64 offset + int32 position).
+	if count < 0 || int64(count)*12 > int64(reader.Len()) {
+		return nil, fmt.Errorf("index entry count %d out of bounds", count)
+	}
 	entries := make([]IndexEntry, count)
 	for i := int32(0); i < count; i++ {
 		var offset int64
